@@ -729,6 +729,13 @@ func (view *View) Offset(ctx context.Context, scope *ReferenceScope, clause pars
 			view.RecordSet[i] = newSet[i]
 		}
 	}
+	if view.sortValuesInEachRecord != nil {
+		if len(view.sortValuesInEachRecord) <= view.offset {
+			view.sortValuesInEachRecord = nil
+		} else {
+			view.sortValuesInEachRecord = view.sortValuesInEachRecord[view.offset:]
+		}
+	}
 	return nil
 }
 
